@@ -1416,6 +1416,181 @@ def probe_unpacking(ctx: Ctx) -> None:
                          "%s documents %r which Python does not bind" % (scope, n))
 
 
+# --------------------------------------------------------------------------- clauses and unpacking, judged directly (round 6)
+
+def _gen_binding(rng, name: str, ind: str) -> str:
+    """one statement that binds `name`: a function (plain / coroutine), a class (plain / exception) or a literal"""
+    k = rng.choice(["def", "adef", "class", "exc", "int", "str", "list", "none"])
+    tag = "%s-%d" % (k, rng.randint(0, 99))
+    if k in ("def", "adef"):
+        return "%s%sdef %s():\n%s    \"%s\"\n" % (ind, "async " if k == "adef" else "", name, ind, tag)
+    if k in ("class", "exc"):
+        return "%sclass %s%s:\n%s    \"%s\"\n" % (ind, name, "(KeyError)" if k == "exc" else "", ind, tag)
+    return "%s%s = %s\n" % (ind, name, {"int": "7", "str": "'s'", "list": "[1, 2]", "none": "None"}[k])
+
+
+def gen_clause_module(rng) -> str:
+    """statements whose clauses ALL run (try/else/finally, for/else, while/else, with, if True) and bind the same few names
+    in several clauses, at module level and in a class body"""
+    def block(ind: str, names: List[str]) -> str:
+        form = rng.choice(["try", "try", "try", "for", "while", "with", "if"])
+
+        def some(n=2):
+            return "".join(_gen_binding(rng, rng.choice(names), ind + "    ") for _ in range(rng.randint(1, n)))
+        if form == "try":
+            out = ind + "try:\n" + some()
+            has_exc = rng.random() < 0.7
+            if has_exc:
+                out += ind + "except ZeroDivisionError:\n" + ind + "    pass\n"
+            if has_exc and rng.random() < 0.7:
+                out += ind + "else:\n" + some()
+            if (not has_exc) or rng.random() < 0.8:
+                out += ind + "finally:\n" + some()
+            return out
+        if form == "for":
+            return ind + "for _i in [0]:\n" + some() + (ind + "else:\n" + some() if rng.random() < 0.7 else "")
+        if form == "while":
+            return ind + "_once = True\n" + ind + "while _once:\n" + ind + "    _once = False\n" + some() + (ind + "else:\n" + some() if rng.random() < 0.7 else "")
+        if form == "with":
+            return ind + "with ctx():\n" + some()
+        return ind + "if True:\n" + some()
+    src = "import contextlib\n@contextlib.contextmanager\ndef ctx():\n    yield\n_once = True\n"
+    names = ["x", "y", "z"]
+    for _ in range(rng.randint(1, 3)):
+        src += block("", names) if rng.random() < 0.8 else _gen_binding(rng, rng.choice(names), "")
+    src += "class C:\n    _once = True\n"
+    for _ in range(rng.randint(1, 2)):
+        src += block("    ", ["p", "q"]) if rng.random() < 0.8 else _gen_binding(rng, rng.choice(["p", "q"]), "    ")
+    return src
+
+
+CLAUSE_FIXED = [
+    # seeded C03-r6-2: else and finally of one try bind the same name
+    "try:\n    pass\nexcept ZeroDivisionError:\n    pass\nelse:\n    def x():\n        \"else\"\nfinally:\n    async def x():\n        \"finally\"\n"
+    "class C:\n    try:\n        pass\n    except ZeroDivisionError:\n        pass\n    else:\n        p = 's'\n        class q:\n            \"else\"\n"
+    "    finally:\n        p = 1\n        class q(KeyError):\n            \"finally\"\n",
+    "for _i in [0]:\n    x = 1\nelse:\n    x = 's'\ntry:\n    y = 1\nfinally:\n    y = [1]\nclass C:\n    p = 1\n",
+]
+
+
+def _unpack_pattern(rng, depth: int = 0):
+    """(target source, value source) of one unpacking assignment whose right-hand side is a display of literals of the
+    same shape; a starred target takes 0-2 elements of the display"""
+    lits = ["1", "'x'", "2.5", "None", "b'y'", "[3]", "(4, 5)", "{'k': 1}", "True"]
+    n = rng.randint(2, 4)
+    star = rng.randrange(n) if rng.random() < 0.5 else -1
+    tg, vs = [], []
+    for i in range(n):
+        nm = "u%d_%d_%d" % (depth, rng.randint(0, 999), i)
+        if i == star:
+            tg.append("*" + nm)
+            for _ in range(rng.choice([0, 1, 1, 2])):
+                vs.append(rng.choice(lits))
+        elif depth == 0 and rng.random() < 0.2:
+            t2, v2 = _unpack_pattern(rng, 1)
+            tg.append("(" + t2 + ")")
+            vs.append(v2)
+        else:
+            tg.append(nm)
+            vs.append(rng.choice(lits))
+    if rng.random() < 0.5:
+        return "[" + ", ".join(tg) + "]", "[" + ", ".join(vs) + "]"
+    return ", ".join(tg), "(" + ", ".join(vs) + ("," if len(vs) == 1 else "") + ")"
+
+
+UNPACK_FIXED = [
+    # seeded C03-r6-1: a starred target and a display with as many elements as there are target names
+    "first, *others = 1, 'x'\n*initial, last = 'a', 2\nclass C:\n    [head, *tail] = [1, 2]\n    a, (b, *c) = 1, ('s', 2)\n",
+]
+
+
+def probe_clauses_and_unpacking(ctx: Ctx) -> None:
+    """Two families outside the project IR, each module built by the real pydoctor and executed by CPython:
+    (1) statements ALL of whose clauses run (try/else/finally, loops with else, with, if True) binding the same name in
+    several clauses - the documented object must be the one Python ends up with (class of object, coroutine flag,
+    exception class, docstring, inferred literal type);  (2) unpacking assignments from displays of literals, with
+    starred and nested targets - every bound name is documented and a type, when one is inferred, is the actual one.
+    Not judged here (recorded findings of other streams): a definition followed by an assignment of the same name
+    (kind:definition-then-assignment) - such pairs are skipped."""
+    from pydoctor import model
+
+    def build(src: str):
+        s = model.System()
+        b = s.systemBuilder(s)
+        b.addModuleString(src, "m")
+        b.buildModules()
+        glob: Dict[str, Any] = {"__name__": "m"}
+        exec(compile(src, "m.py", "exec"), glob)
+        return s, glob
+
+    def judge(src: str, family: str) -> None:
+        try:
+            s, glob = build(src)
+        except Exception as e:
+            ctx.fail("probe-%s:crash:%s" % (family, type(e).__name__), {"files": {"m.py": src}}, "building or executing the probe module raised %r" % (e,))
+            return
+        for scope, ns in (("m", glob), ("m.C", vars(glob["C"]) if "C" in glob else {})):
+            if scope not in s.allobjects:
+                continue
+            cont = s.allobjects[scope].contents
+            for n, v in list(ns.items()):
+                if n.startswith("_") or n in ("ctx", "contextlib", "C"):
+                    continue
+                o = cont.get(n)
+                inp = {"files": {"m.py": src}, "scope": scope, "name": n}
+                if o is None:
+                    ctx.fail("missing-member:%s" % family, inp, "%s: %r is bound by Python and not documented" % (scope, n))
+                    continue
+                want = "Function" if inspect.isfunction(v) else "Class" if inspect.isclass(v) else "Attribute"
+                got = "Function" if isinstance(o, model.Function) else "Class" if isinstance(o, model.Class) else "Attribute"
+                if want == "Attribute" and got != "Attribute":
+                    continue    # def/class, then an assignment: the recorded finding kind:definition-then-assignment
+                if want != got:
+                    ctx.fail("%s:wrong-object:%s-for-%s" % (family, got, want), inp,
+                             "%s.%s: Python binds a %s last, pydoctor documents a %s" % (scope, n, want, got))
+                    continue
+                if want == "Function":
+                    if bool(o.is_async) != inspect.iscoroutinefunction(v):
+                        ctx.fail("%s:wrong-definition:coroutine-flag" % family, inp, "%s.%s: is_async=%s, the function Python binds last: coroutine=%s"
+                                 % (scope, n, o.is_async, inspect.iscoroutinefunction(v)))
+                if want == "Class":
+                    isexc = o.kind is model.DocumentableKind.EXCEPTION
+                    if isexc != issubclass(v, BaseException):
+                        ctx.fail("%s:wrong-definition:exception-kind" % family, inp, "%s.%s: documented kind %s, Python's class is %san exception"
+                                 % (scope, n, o.kind.name if o.kind else None, "" if issubclass(v, BaseException) else "not "))
+                if want in ("Function", "Class"):
+                    d = inspect.cleandoc(v.__doc__) if v.__doc__ else None
+                    if (o.docstring or None) != d:
+                        ctx.fail("%s:wrong-definition:docstring" % family, inp, "%s.%s: docstring %r, the object Python binds last has %r"
+                                 % (scope, n, o.docstring, d))
+                if want == "Attribute" and getattr(o, "annotation", None) is not None:
+                    a = ast.unparse(o.annotation).split("[")[0]
+                    if a != type(v).__name__ and not (a == "None" and v is None):
+                        ctx.fail("infer:wrong-type:%s" % family, inp, "%s.%s: inferred %s, the value is a %s (%r)"
+                                 % (scope, n, ast.unparse(o.annotation), type(v).__name__, v))
+    n = 120 if ctx.quick else 2500
+    for i in range(len(CLAUSE_FIXED) + n):
+        src = CLAUSE_FIXED[i] if i < len(CLAUSE_FIXED) else gen_clause_module(ctx.rng)
+        ctx.case("probe-clauses:%d:%d" % (i, len(src)), True, None)
+        judge(src, "clauses")
+    ctx.count("probe:clause-modules", len(CLAUSE_FIXED) + n)
+    for i in range(len(UNPACK_FIXED) + n):
+        if i < len(UNPACK_FIXED):
+            src = UNPACK_FIXED[i]
+        else:
+            lines, cl = [], []
+            for _ in range(ctx.rng.randint(1, 3)):
+                t, v = _unpack_pattern(ctx.rng)
+                lines.append("%s = %s\n" % (t, v))
+            for _ in range(ctx.rng.randint(1, 2)):
+                t, v = _unpack_pattern(ctx.rng)
+                cl.append("    %s = %s\n" % (t, v))
+            src = "".join(lines) + "class C:\n" + "".join(cl)
+        ctx.case("probe-unpack-types:%d:%d" % (i, len(src)), True, None)
+        judge(src, "unpacking")
+    ctx.count("probe:unpacking-modules", len(UNPACK_FIXED) + n)
+
+
 # --------------------------------------------------------------------------- deterministic corpus (runs first, every run)
 
 def assemble(mod_specs: List[Tuple[str, bool, List[str], list]]):
@@ -1663,6 +1838,7 @@ def run(ctx: Ctx) -> None:
     run_corpus(ctx)
     probe_shadowing(ctx)
     probe_unpacking(ctx)
+    probe_clauses_and_unpacking(ctx)
     kernel_decorators(ctx)
     kernel_find(ctx)
     kernel_infer(ctx)
@@ -1859,6 +2035,24 @@ def replay(ctx: Ctx, obj) -> int:
             print(s)
     if not files:
         print(json.dumps(inp, indent=1))
+        return 0
+    if set(files) == {"m.py"}:
+        # the single-module probes (probe_review / probe_shadowing / probe_unpacking / probe_clauses_and_unpacking)
+        from pydoctor import model
+        s = model.System()
+        b = s.systemBuilder(s)
+        b.addModuleString(files["m.py"], "m")
+        b.buildModules()
+        glob: Dict[str, Any] = {"__name__": "m"}
+        exec(compile(files["m.py"], "m.py", "exec"), glob)
+        for q, ns in (("m", glob), ("m.C", vars(glob["C"]) if isinstance(glob.get("C"), type) else {})):
+            o = s.allobjects.get(q)
+            if o is None:
+                continue
+            print("scope", q)
+            print("  pydoctor:", {n: (i["cls"], i["kind"], i["doc"], i["ann"]) for n, i in pd_dump(o)[1].items()})
+            print("  cpython :", {n: (type(v).__name__, getattr(v, "__doc__", None) if inspect.isfunction(v) or inspect.isclass(v) else repr(v))
+                                  for n, v in ns.items() if not n.startswith("_")})
         return 0
     mods = sorted(((k[:-3].replace("/", ".").replace(".__init__", ""), k.endswith("__init__.py")) for k in files if k != "pk/_h.py"),
                   key=lambda x: (x[0].count("."), not x[1], x[0]))
